@@ -1,33 +1,379 @@
 import Fabio.Driver.Proto
-import Fabio.Model.C20
+import Fabio.Model.C20Spec
+/-!
+Driver handlers for C20. For every stream: `model` = output of the Lean model on the case's input,
+`agree` = equals the implementation's output, `spec` = the specification (`Model/C20Spec.lean`: built on
+`Nat.toDigits`/`toString`, not on the loops of the model) evaluated on the implementation's own output.
+An implementation output of the form `{"out": …, "std": …}` means the real code and Go's standard library
+disagreed on the Go side already: `spec` is false.
+-/
 namespace Fabio.Driver.C20
 open Lean Fabio.Driver Fabio.Model.C20
 
+def panicJson : Json := Json.mkObj [("panic", true)]
+
 def outcomeJson {α} (f : α → Json) : Fabio.Outcome α → Json
   | .ok a => f a
-  | .panic _ => Json.mkObj [("panic", true)]
+  | .panic _ => panicJson
 
-/-- implementation outputs carry the panic text; canonicalise to `{"panic":true}` -/
+def strJ (s : List Char) : Json := Json.str (String.ofList s)
+
+/-- implementation outputs carry the panic text; canonicalise to `{"panic":true}`; a `{"out","std"}` pair
+(real code ≠ standard library) is reduced to the real code's output -/
 def canonImpl (j : Json) : Json :=
   match j.getObjVal? "panic" with
-  | .ok _ => Json.mkObj [("panic", true)]
-  | .error _ => j
+  | .ok _ => panicJson
+  | .error _ =>
+    match j.getObjVal? "out" with
+    | .ok o => o
+    | .error _ => j
+
+def differsFromStd (j : Json) : Bool := (j.getObjVal? "std").toOption.isSome && (j.getObjVal? "out").toOption.isSome
+
+def isPanicJ (j : Json) : Bool := (j.getObjVal? "panic").toOption.isSome
+
+/-! ### numbers -/
 
 def atoiH : Handler := fun inp impl => do
   let i ← inp.getObjValAs? Int "i"
   let pad ← inp.getObjValAs? Nat "pad"
-  let m := Json.str (String.ofList (atoi i pad))
-  let spec := (canonImpl impl) == Json.str (String.ofList
-      ((if i < 0 then ['-'] else []) ++ (let d := (toString i.natAbs).toList; List.replicate (pad - d.length) '0' ++ d)))
-  return ({ model := m, agree := m == canonImpl impl, spec := spec || i == minInt64,
-            nontrivial := true, tag := if i < 0 then "neg" else "nonneg" } : Verdict).toJson
+  let m := outcomeJson strJ (atoi i pad)
+  let ci := canonImpl impl
+  let inDomain := i != minInt64 && pad ≤ 127
+  let spec := !inDomain || (!differsFromStd impl && ci == strJ (Spec.decimal i pad))
+  let tag := if i == minInt64 then "minint64" else if pad > 127 then "pad-beyond-buffer"
+    else if differsFromStd impl then "differs-from-stdlib"
+    else if i < 0 then (if pad == 0 then "neg" else "neg-padded") else (if pad == 0 then "nonneg" else "nonneg-padded")
+  return ({ model := m, agree := m == ci, spec := spec, nontrivial := inDomain, tag := tag } : Verdict).toJson
+
+def i32toaH : Handler := fun inp impl => do
+  let n ← inp.getObjValAs? Int "n"
+  let m := outcomeJson strJ (i32toa n)
+  let ci := canonImpl impl
+  let spec := !differsFromStd impl && ci == Json.str (toString n)
+  let tag := if differsFromStd impl then "differs-from-stdlib" else if n < 0 then "neg" else "nonneg"
+  return ({ model := m, agree := m == ci, spec := spec, nontrivial := true, tag := tag } : Verdict).toJson
+
+def fnvStep (h : UInt64) (b : UInt8) : UInt64 := (h ^^^ b.toUInt64) * 1099511628211
+def fnvLine (h : UInt64) (s : List Char) : UInt64 :=
+  fnvStep (s.foldl (fun h c => fnvStep h c.toNat.toUInt8) h) 10
+
+/-- checksum of `f lo, f (lo+1), …` (`n` values), each followed by a newline -/
+def fnvBlock (f : Int → List Char) (lo : Int) (n : Nat) : UInt64 := Id.run do
+  let mut h : UInt64 := 14695981039346656037
+  for k in [0:n] do
+    h := fnvLine h (f (lo + k))
+  return h
+
+def hex64 (h : UInt64) : String := String.ofList (Nat.toDigits 16 h.toNat)
+
+def i32blockH : Handler := fun inp impl => do
+  let blk ← inp.getObjValAs? Nat "blk"
+  let lo : Int := -(2^31 : Int) + (blk : Int) * 65536
+  let msum := hex64 (fnvBlock (fun v => match i32toa v with | .ok s => s | .panic _ => "PANIC".toList) lo 65536)
+  let rsum := hex64 (fnvBlock (fun v => (toString v).toList) lo 65536)
+  let m := Json.mkObj [("sum", msum)]
+  if isPanicJ impl then
+    return ({ model := m, agree := false, spec := false, nontrivial := true, tag := "panic" } : Verdict).toJson
+  let isum ← impl.getObjValAs? String "sum"
+  let bad ← impl.getObjValAs? Nat "bad"
+  let tag := if bad != 0 then "differs-from-stdlib" else if blk < 32768 then "neg-block" else "nonneg-block"
+  return ({ model := m, agree := msum == isum, spec := rsum == isum && bad == 0, nontrivial := true, tag := tag } : Verdict).toJson
+
+def uint16H : Handler := fun inp impl => do
+  let n ← inp.getObjValAs? Nat "n"
+  let m := outcomeJson strJ (uint16base16 n)
+  let ci := canonImpl impl
+  let spec := !differsFromStd impl && ci == strJ (Spec.hex4 n)
+  let tag := if differsFromStd impl then "differs-from-stdlib" else s!"nibbles-{(Nat.toDigits 16 n).length}"
+  return ({ model := m, agree := m == ci, spec := spec, nontrivial := true, tag := tag } : Verdict).toJson
+
+def hexVal (c : Char) : Option Nat :=
+  if '0' ≤ c ∧ c ≤ '9' then some (c.toNat - 48)
+  else if 'a' ≤ c ∧ c ≤ 'f' then some (c.toNat - 87)
+  else if 'A' ≤ c ∧ c ≤ 'F' then some (c.toNat - 55) else none
+
+def hexDecode : List Char → Option (List UInt8)
+  | [] => some []
+  | a :: b :: rest => do
+    let x ← hexVal a
+    let y ← hexVal b
+    let r ← hexDecode rest
+    return UInt8.ofNat (x * 16 + y) :: r
+  | _ => none
+
+def isLowerHex (c : Char) : Bool := ('0' ≤ c && c ≤ '9') || ('a' ≤ c && c ≤ 'f')
+
+def uuidH : Handler := fun inp impl => do
+  let us ← inp.getObjValAs? String "u"
+  let some u := hexDecode us.toList | throw "bad hex"
+  if u.length != 24 then throw "need 24 bytes"
+  let m := outcomeJson strJ (uuidToString u)
+  let ci := canonImpl impl
+  let shape := match ci with
+    | .str s =>
+      let l := s.toList
+      l.length == 36 && (List.range 36).all fun i =>
+        match l[i]? with
+        | some c => if [8, 13, 18, 23].contains i then c == '-' else isLowerHex c
+        | none => false
+    | _ => false
+  let spec := !differsFromStd impl && shape && ci == strJ (Spec.uuidText u)
+  let tag := if differsFromStd impl then "differs-from-stdlib" else if !shape then "bad-shape" else "uuid"
+  return ({ model := m, agree := m == ci, spec := spec, nontrivial := (u.take 16).eraseDups.length > 2, tag := tag } : Verdict).toJson
+
+/-! ### hostport -/
 
 def hostportH : Handler := fun inp impl => do
   let s ← inp.getObjValAs? String "s"
-  let m := outcomeJson (fun (p : List Char × List Char) => Json.arr #[Json.str (String.ofList p.1), Json.str (String.ofList p.2)]) (hostport s.toList)
+  let m := outcomeJson (fun (p : List Char × List Char) => Json.arr #[strJ p.1, strJ p.2]) (hostport s.toList)
   let ci := canonImpl impl
-  return ({ model := m, agree := m == ci, spec := ci != Json.mkObj [("panic", true)],
-            nontrivial := s.toList.contains ':', tag := if s.isEmpty then "empty" else if s.toList.contains ':' then "colon" else "nocolon" } : Verdict).toJson
+  let spec := match ci with
+    | .arr #[.str h, .str p] => Spec.hostportOk s.toList h.toList p.toList
+    | _ => false
+  let colons := s.toList.count ':'
+  let tag := if isPanicJ impl then "panic" else if s.isEmpty then "empty" else if colons == 0 then "nocolon"
+    else if colons == 1 then "colon" else "colons"
+  return ({ model := m, agree := m == ci, spec := spec, nontrivial := !s.isEmpty, tag := tag } : Verdict).toJson
 
-def streams : List (String × Handler) := [("c20.atoi", atoiH), ("c20.hostport", hostportH)]
+/-! ### lex / parse -/
+
+def typNum : ItemType → Nat
+  | .text => 0 | .field => 1 | .header => 2
+
+def numTyp : Nat → Option ItemType
+  | 0 => some .text | 1 => some .field | 2 => some .header | _ => none
+
+/-- drive `lex` the way `parse` does; `none` when it reports a length outside `1..len` -/
+def lexAll : Nat → List Char → List (ItemType × List Char) → Option (List (ItemType × List Char))
+  | 0, _, _ => none
+  | fuel+1, s, acc =>
+    if s.isEmpty then some acc.reverse else
+    let (t, n) := lex s
+    if n < 1 ∨ (s.length : Int) < n then none
+    else lexAll fuel (s.drop n.toNat) ((t, s.take n.toNat) :: acc)
+
+def knownDoc (name : List Char) : Bool :=
+  let n := String.ofList name
+  Spec.documentedFields.contains n || n == "$upstream_service"
+
+def invalidFieldMsg (name : List Char) : String := "invalid field \"" ++ String.ofList name ++ "\""
+
+def itemsJson (l : List (ItemType × List Char)) : Json :=
+  Json.arr (l.map fun (t, v) => Json.arr #[Json.num (typNum t), strJ v]).toArray
+
+/-- does every item satisfy the declarative description, given what follows it? -/
+def itemsOk : List (ItemType × List Char) → Bool
+  | [] => true
+  | (t, v) :: rest => Spec.itemOk t v (rest.flatMap (·.2)) && itemsOk rest
+
+def parseH : Handler := fun inp impl => do
+  let f ← inp.getObjValAs? String "f"
+  let s := f.toList
+  let m : Json := match lexAll (s.length + 1) s [], parse s with
+    | some items, .ok (.ok p) => Json.mkObj [("items", itemsJson items), ("n", p.length), ("err", "")]
+    | some items, .ok (.error name) => Json.mkObj [("items", itemsJson items), ("n", (0 : Nat)), ("err", invalidFieldMsg name)]
+    | _, _ => panicJson
+  let ci := canonImpl impl
+  if isPanicJ impl || (impl.getObjVal? "stuck").toOption.isSome then
+    return ({ model := m, agree := m == ci, spec := false, nontrivial := true,
+              tag := if isPanicJ impl then "panic" else "lex-no-progress" } : Verdict).toJson
+  -- specification on the implementation's own items
+  let ij ← impl.getObjValAs? (Array Json) "items"
+  let items ← ij.toList.mapM fun j => do
+    let a ← j.getArr?
+    let t ← (a[0]?.getD Json.null).getNat?
+    let v ← (a[1]?.getD Json.null).getStr?
+    match numTyp t with
+    | some ty => pure (ty, v.toList)
+    | none => throw "bad item type"
+  let n ← impl.getObjValAs? Nat "n"
+  let err ← impl.getObjValAs? String "err"
+  let concatOk := items.flatMap (·.2) == s
+  let shapeOk := itemsOk items
+  let firstBad := (items.filter fun (t, v) => t == .field && !knownDoc v).head?
+  let resOk := match firstBad with
+    | some (_, v) => err == invalidFieldMsg v && n == 0
+    | none => err == "" && n == items.length
+  let tag := if !concatOk then "items-do-not-concatenate" else if !shapeOk then "item-shape" else if !resOk then "parse-result"
+    else if firstBad.isSome then "unknown-field"
+    else if items.any (·.1 == .header) then "header" else if items.any (·.1 == .field) then "fields"
+    else if items.isEmpty then "empty" else "text-only"
+  return ({ model := m, agree := m == ci, spec := concatOk && shapeOk && resOk,
+            nontrivial := items.any (·.1 != .text), tag := tag } : Verdict).toJson
+
+/-! ### whole events -/
+
+def optStr (j : Json) (k : String) : List Char :=
+  match j.getObjValAs? String k with
+  | .ok s => s.toList
+  | .error _ => []
+
+def urlView (j : Json) : Option URLView :=
+  if j.isNull then none else
+  some { scheme := optStr j "scheme", rawQuery := optStr j "q", requestURI := optStr j "uri", str := optStr j "str" }
+
+def intAt (a : Array Json) (i : Nat) : Int := ((a[i]?.getD Json.null).getInt?).toOption.getD 0
+
+def mkEvent (ev env : Json) : Except String Event := do
+  let req := (ev.getObjVal? "req").toOption.getD Json.null
+  let hdrJ := if req.isNull then Json.null else (req.getObjVal? "hdr").toOption.getD Json.null
+  let hdr : Option (List (List Char × List (List Char))) ←
+    if hdrJ.isNull then pure none else do
+      let arr ← hdrJ.getArr?
+      let l ← arr.toList.mapM fun h => do
+        let k ← h.getObjValAs? String "k"
+        let v ← h.getObjValAs? (Array String) "v"
+        pure (k.toList, v.toList.map String.toList)
+      pure (some l)
+  let t := ((env.getObjVal? "t").toOption.bind (·.getArr?.toOption)).getD #[]
+  return {
+    hasRequest := !req.isNull
+    remoteAddr := optStr req "remote", method := optStr req "method", requestURI := optStr req "uri"
+    proto := optStr req "proto", host := optStr req "host", header := hdr
+    requestURL := urlView ((env.getObjVal? "rurl").toOption.getD Json.null)
+    upstreamURL := urlView ((env.getObjVal? "uurl").toOption.getD Json.null)
+    upstreamAddr := optStr ev "uaddr", upstreamService := optStr ev "usvc"
+    status := (ev.getObjValAs? Int "status").toOption.getD 0
+    contentLength := (ev.getObjValAs? Int "size").toOption.getD 0
+    durNs := (env.getObjValAs? Int "dur").toOption.getD 0
+    unixNano := (env.getObjValAs? Int "unixnano").toOption.getD 0
+    year := intAt t 0, month := if t.size > 1 then intAt t 1 else 1, day := intAt t 2
+    hour := intAt t 3, minute := intAt t 4, second := intAt t 5, nanos := intAt t 6 }
+
+structure RItem where
+  kind : String
+  v : List Char
+
+def itemSrc (it : RItem) : List Char := if it.kind == "header" then "$header.".toList ++ it.v else it.v
+
+/-- The intended items lex back to themselves: texts are non-empty and free of `$`, names are made of
+identifier characters, and no text is glued to the field before it. Only then is "the rendering of the
+items" what the format asks for. -/
+def wellSeparated : List RItem → Bool
+  | [] => true
+  | it :: rest =>
+    let selfOk :=
+      if it.kind == "text" then it.v != [] && !it.v.contains '$'
+      else if it.kind == "header" then it.v != [] && it.v.all isIDChar
+      else match it.v with
+        | '$' :: name => name != [] && name.all isIDChar
+        | _ => false
+    let nextOk := match rest with
+      | nx :: _ =>
+        if it.kind != "text" && nx.kind == "text" then
+          match nx.v with
+          | c :: _ => !isIDChar c && c != '.'
+          | [] => false
+        else true
+      | [] => true
+    selfOk && nextOk && wellSeparated rest
+
+/-- Day count → civil date (proleptic Gregorian), independent of Go's `time`: used to cross-check the UTC
+calendar fields the harness reports for `End`. -/
+def civilFromDays (z0 : Int) : Int × Int × Int :=
+  let z := z0 + 719468
+  let era := z / 146097
+  let doe := z - era * 146097
+  let yoe := (doe - doe / 1460 + doe / 36524 - doe / 146096) / 365
+  let y := yoe + era * 400
+  let doy := doe - (365 * yoe + yoe / 4 - yoe / 100)
+  let mp := (5 * doy + 2) / 153
+  let d := doy - (153 * mp + 2) / 5 + 1
+  let m := if mp < 10 then mp + 3 else mp - 9
+  (if m ≤ 2 then y + 1 else y, m, d)
+
+def clamp64 (x : Int) : Int := if x < -(2^63) then -(2^63) else if x ≥ 2^63 then 2^63 - 1 else x
+
+/-- `End.UnixNano()` wraps, `End.Sub(Start)` saturates -/
+def envMatchesArith (e : Event) (ssec sns esec ens : Int) : Bool :=
+  e.unixNano == wrap64 (esec * 1000000000 + ens) &&
+  e.durNs == clamp64 ((esec * 1000000000 + ens) - (ssec * 1000000000 + sns))
+
+def envMatchesInstant (e : Event) (sec ns : Int) : Bool :=
+  let sec' := sec + ns / 1000000000
+  let ns' := ns % 1000000000
+  let days := sec' / 86400
+  let sod := sec' % 86400
+  let (y, m, d) := civilFromDays days
+  e.year == y && e.month == m && e.day == d && e.hour == sod / 3600 && e.minute == sod % 3600 / 60 &&
+    e.second == sod % 60 && e.nanos == ns'
+
+def refItem (e : Event) (it : RItem) : Option (List Char) :=
+  if it.kind == "text" then some it.v
+  else if it.kind == "header" then
+    some (match e.hasRequest, e.header with
+      | true, some h => headerGet h it.v
+      | _, _ => [])
+  else Spec.refField e (String.ofList it.v)
+
+def timeFields : List String := ["$time_common", "$time_rfc3339", "$time_rfc3339_ms", "$time_rfc3339_us", "$time_rfc3339_ns"]
+def hostportFields : List String := ["$remote_host", "$remote_port", "$upstream_host", "$upstream_port"]
+
+def renderH : Handler := fun inp impl => do
+  let itemsJ ← inp.getObjValAs? (Array Json) "items"
+  let items ← itemsJ.toList.mapM fun j => do
+    let k ← j.getObjValAs? String "k"
+    let v ← j.getObjValAs? String "v"
+    pure ({ kind := k, v := v.toList } : RItem)
+  let evJ ← inp.getObjVal? "ev"
+  let env := (impl.getObjVal? "env").toOption.getD Json.null
+  let e ← mkEvent evJ env
+  let format := items.flatMap itemSrc
+  let m : Json := match newAndLog format e with
+    | .panic _ => panicJson
+    | .ok (.newError msg) => Json.mkObj [("new_err", strJ msg)]
+    | .ok (.written out) => Json.mkObj [("line", strJ out)]
+  let implPanics := isPanicJ impl
+  let implErr := (impl.getObjValAs? String "new_err").toOption
+  let implLine := (impl.getObjValAs? String "line").toOption
+  let ci : Json := if implPanics then panicJson else match implErr, implLine with
+    | some er, _ => Json.mkObj [("new_err", er)]
+    | none, some l => Json.mkObj [("line", l)]
+    | none, none => Json.null
+  let agree := m == ci
+  let names := (items.filter (·.kind == "field")).map fun it => String.ofList it.v
+  let tz := (evJ.getObjValAs? Int "tz").toOption.getD 0
+  let hasTime := names.any timeFields.contains
+  let cls := if hasTime then (if tz != 0 then "time-nonutc" else "time-utc")
+    else if names.any hostportFields.contains then "hostport"
+    else if items.any (·.kind == "header") then "header" else "plain"
+  if !wellSeparated items then
+    return ({ model := m, agree := agree, spec := !implPanics, nontrivial := false,
+              tag := if implPanics then "panic" else "ill-separated" } : Verdict).toJson
+  if implPanics then
+    return ({ model := m, agree := agree, spec := false, nontrivial := true, tag := "panic-" ++ cls } : Verdict).toJson
+  -- what logger.New must say
+  let firstBad := (items.filter fun it => it.kind == "field" && !knownDoc it.v).head?
+  let wantErr : Option String := if items.isEmpty then some "empty log format" else firstBad.map fun it => invalidFieldMsg it.v
+  match wantErr, implErr with
+  | some w, got =>
+    return ({ model := m, agree := agree, spec := got == some w, nontrivial := true, tag := "new-error" } : Verdict).toJson
+  | none, some _ =>
+    return ({ model := m, agree := agree, spec := false, nontrivial := true, tag := "unexpected-new-error" } : Verdict).toJson
+  | none, none =>
+    let some line := implLine | throw "impl has neither line nor new_err"
+    let std := (impl.getObjValAs? String "std").toOption.getD ""
+    let writes := (impl.getObjValAs? Nat "writes").toOption.getD 0
+    let mutated := (impl.getObjValAs? Bool "mutated").toOption.getD true
+    let esec := (evJ.getObjValAs? Int "esec").toOption.getD 0
+    let ens := (evJ.getObjValAs? Int "ens").toOption.getD 0
+    let ssec := (evJ.getObjValAs? Int "ssec").toOption.getD 0
+    let sns := (evJ.getObjValAs? Int "sns").toOption.getD 0
+    let envOk := envMatchesInstant e esec ens && envMatchesArith e ssec sns esec ens
+    let refs := items.map (refItem e)
+    let ref : List Char := (refs.map (·.getD [])).flatten
+    let negDur := e.durNs < 0 && names.any (·.startsWith "$response_time")
+    let want := String.ofList (ref ++ ['\n'])
+    let newline := ref.contains '\n'
+    let oneLine := line == want && line == std ++ "\n"
+    let spec := negDur || (oneLine && writes == 1 && !mutated && envOk && refs.all (·.isSome))
+    let tag := if negDur then "neg-duration" else if !envOk then "calendar-mismatch"
+      else if ref.isEmpty then "empty-rendering" else if mutated then "event-mutated"
+      else if newline then "newline-in-value" else cls
+    return ({ model := m, agree := agree, spec := spec, nontrivial := !negDur && items.any (·.kind != "text"), tag := tag } : Verdict).toJson
+
+def streams : List (String × Handler) := [
+  ("c20.atoi", atoiH), ("c20.i32toa", i32toaH), ("c20.i32block", i32blockH), ("c20.uint16", uint16H),
+  ("c20.uuid", uuidH), ("c20.hostport", hostportH), ("c20.parse", parseH), ("c20.render", renderH)]
 end Fabio.Driver.C20
